@@ -47,6 +47,9 @@ pub struct RunStats {
     pub digest: u64,
     pub rejected_ids: Vec<u32>,
     pub tainted: bool,
+    /// medium events per operation: (op id, [read, write, seek, flush])
+    pub op_events: Vec<(u32, [u32; 4])>,
+    pub final_len: u64,
 }
 
 impl RunStats {
@@ -269,6 +272,7 @@ struct Exec<'a> {
     cur_id: u32,
     done: bool,
     any_hard_fault: bool,
+    carry_ord: [u32; 4],
 }
 
 fn fault_free() -> DiskCfg {
@@ -290,7 +294,8 @@ impl<'a> Exec<'a> {
     }
 
     fn faults_in_play(&self) -> bool {
-        self.any_hard_fault || self.disk.borrow().hard_fault_fired
+        let d = self.disk.borrow();
+        self.any_hard_fault || d.hard_fault_fired || d.ever_hard_fault
     }
 
     fn panic_violation(&mut self, what: &str, loc: String, msg: String, stream_op: bool) {
@@ -315,9 +320,11 @@ impl<'a> Exec<'a> {
 
     fn retire_disk(&mut self) {
         let st = self.disk.borrow();
+        self.carry_ord = st.ord;
+        self.stats.final_len = st.view.len() as u64;
         self.stats.disk.add(&st.stats);
         self.stats.digest = mix(&[self.stats.digest, st.digest]);
-        if st.hard_fault_fired {
+        if st.hard_fault_fired || st.ever_hard_fault {
             self.any_hard_fault = true;
         }
     }
@@ -389,20 +396,45 @@ impl<'a> Exec<'a> {
         self.done = true;
     }
 
+    /// Full API snapshot of the working package.  None if it panicked (a
+    /// violation) or if an injected fault was reported during it (from then
+    /// on only the no-panic oracle applies).
+    fn working_snapshot(&mut self) -> Option<Snap> {
+        let was = self.disk.borrow().hard_fault_fired;
+        self.disk.borrow_mut().hard_fault_fired = false;
+        let pkg = self.pkg.as_mut()?;
+        let r = guarded(|| snapshot::take(pkg));
+        let fired = self.disk.borrow().hard_fault_fired;
+        self.disk.borrow_mut().hard_fault_fired = was || fired;
+        match r {
+            Caught::Val(s) => {
+                if fired {
+                    self.any_hard_fault = true;
+                    self.tainted = true;
+                    self.stats.tainted = true;
+                    self.stats.probe("fault_reported_as_error");
+                    None
+                } else {
+                    Some(s)
+                }
+            }
+            Caught::Panic(loc, msg) => {
+                self.panic_violation("read sweep", loc, msg, false);
+                None
+            }
+        }
+    }
+
     fn observe(&mut self, phase: Phase) {
         if self.tainted || !self.cfg.oracles || self.done {
             return;
         }
-        let pkg = match self.pkg.as_mut() {
-            Some(p) => p,
+        if self.pkg.is_none() {
+            return;
+        }
+        let snap = match self.working_snapshot() {
+            Some(s) => s,
             None => return,
-        };
-        let snap = match guarded(|| snapshot::take(pkg)) {
-            Caught::Val(s) => s,
-            Caught::Panic(loc, msg) => {
-                self.panic_violation("read sweep", loc, msg, false);
-                return;
-            }
         };
         self.stats.snapshots += 1;
         self.stats.oracle_evals += 1;
@@ -661,17 +693,19 @@ impl<'a> Exec<'a> {
         let stream_op = matches!(op, Op::WriteStream { .. } | Op::RemoveStream { .. } | Op::RemoveSignature);
         // snapshot before any call that may be refused
         let before: Option<Snap> = if check && expect != Expect::Ok {
-            let pkg = self.pkg.as_mut().unwrap();
-            match guarded(|| snapshot::take(pkg)) {
-                Caught::Val(s) => Some(s),
-                Caught::Panic(loc, msg) => {
-                    self.panic_violation("read sweep", loc, msg, false);
-                    return;
+            match self.working_snapshot() {
+                Some(s) => Some(s),
+                None => {
+                    if self.done {
+                        return;
+                    }
+                    None
                 }
             }
         } else {
             None
         };
+        let check = check && !self.tainted;
         self.disk.borrow_mut().hard_fault_fired = false;
         let res = match guarded(|| self.do_op(op)) {
             Caught::Val(r) => r,
@@ -763,13 +797,9 @@ impl<'a> Exec<'a> {
                     self.stats.probe("late_or_unpredicted_refusal");
                 }
                 // C04: a refused call changes nothing
-                let pkg = self.pkg.as_mut().unwrap();
-                let after = match guarded(|| snapshot::take(pkg)) {
-                    Caught::Val(s) => s,
-                    Caught::Panic(loc, msg) => {
-                        self.panic_violation("read sweep", loc, msg, false);
-                        return;
-                    }
+                let after = match self.working_snapshot() {
+                    Some(s) => s,
+                    None => return,
                 };
                 self.stats.oracle_evals += 1;
                 if let Some(b) = before {
@@ -1236,6 +1266,8 @@ impl<'a> Exec<'a> {
     fn reopen_working(&mut self, image: Vec<u8>) {
         self.disk = self.new_disk(image);
         self.disk.borrow_mut().begin_op(self.cur_id);
+        // the close and the reopen belong to one operation: ordinals go on
+        self.disk.borrow_mut().ord = self.carry_ord;
         let d = self.disk.clone();
         match guarded(move || Package::open(SimDisk::new(d))) {
             Caught::Panic(loc, msg) => self.panic_violation("Package::open", loc, msg, false),
@@ -1485,6 +1517,7 @@ pub fn run(trace: &Trace, cfg: &ExecCfg) -> RunResult {
         cur_id: 0,
         done: false,
         any_hard_fault: false,
+        carry_ord: [0; 4],
     };
     match &trace.init {
         Init::Create(pt) => {
@@ -1518,11 +1551,17 @@ pub fn run(trace: &Trace, cfg: &ExecCfg) -> RunResult {
             ex.reopen_working(img);
         }
     }
+    {
+        let ord = ex.disk.borrow().ord;
+        ex.stats.op_events.push((0, ord));
+    }
     for rec in trace.ops.iter() {
         if ex.done {
             break;
         }
         ex.step(rec);
+        let ord = ex.disk.borrow().ord;
+        ex.stats.op_events.push((rec.id, ord));
     }
     let mut final_image = None;
     if !ex.done && cfg.keep_final {
